@@ -48,7 +48,7 @@ impl<'a> Parser<'a> {
     /// Creates a new Parser from the given input string
     fn new(input: &str) -> Parser {
         let mut tokenizer = Tokenizer::new(input);
-        let current_token = tokenizer.next().unwrap_or(Token::Illegal);
+        let current_token = tokenizer.next().unwrap_or(Token::Eof);
         Parser {
             tokenizer,
             current_token,
@@ -58,7 +58,7 @@ impl<'a> Parser<'a> {
     /// Advances the parser (reads the next token)
     #[inline(always)]
     fn advance(&mut self) {
-        self.current_token = self.tokenizer.next().unwrap_or(Token::Illegal);
+        self.current_token = self.tokenizer.next().unwrap_or(Token::Eof);
     }
 
     /// Assert current token is of the given type and skips it
@@ -479,7 +479,7 @@ impl<'a> Parser<'a> {
         let mut block = BlockStmt::with_capacity(8);
         self.skip(Token::OpenBrace)?;
 
-        while self.current_token != Token::Illegal && self.current_token != Token::CloseBrace {
+        while self.current_token != Token::Eof && self.current_token != Token::CloseBrace {
             block.push(self.parse_statement()?);
         }
 
@@ -493,7 +493,7 @@ pub fn parse(program: &str) -> Result<BlockStmt, ParseError> {
     let mut parser = Parser::new(program);
     let mut block = BlockStmt::new();
 
-    while parser.current_token != Token::Illegal {
+    while parser.current_token != Token::Eof {
         block.push(parser.parse_statement()?);
     }
 
